@@ -77,7 +77,7 @@ class Op:
 
 
 def split_url(url):
-    return peers.url_parts(url)
+    return peers.url_parts_q(url)
 
 
 class C14(World):
@@ -376,10 +376,11 @@ class C14(World):
         sim = self.sim
         concurrent = ch.flag("variant.concurrent", 0.3)
         n_fi = 1 + ch.pick("cfg.n_fi", 3)
+        urls = self.draw_fi_urls(n_fi)
         for i in range(n_fi):
             fi = self.add_fi(i, ch.pick("fi.svc", 4), ch.flag("fi.cookies", 0.6),
                              ["v1u", "v1c"][ch.pick("fi.form", 2)], ch.flag("fi.pretty", 0.3),
-                             msgsets=MSGSETS[ch.pick("fi.msgsets", len(MSGSETS))])
+                             msgsets=MSGSETS[ch.pick("fi.msgsets", len(MSGSETS))], url_index=urls[i])
             fi.behaviour_fn = self.behaviour
         self.faults_on = ch.flag("cfg.faults", 0.5)
         if self.faults_on:
